@@ -62,7 +62,7 @@ theorem past_bar {p : BPc} {b : Nat} (h : p.past = some b) : p.bar = some b := b
 
 set_option hygiene false in
 macro "bp_post" : tactic => `(tactic| (
-  all_goals (constructor <;> first | assumption | (simp only [upd, upd2, lockS, unlockS, newHelper, relocate, cont_extMode] at * <;> grind [upd, upd2, TPc.extMode, K.isExt, cont_extMode, cont_ne_enq, BPc.bar, BPc.locked, BPc.past, → locked_bar, → past_bar]))))
+  all_goals (constructor <;> first | assumption | (simp only [upd, upd2, lockS, unlockS, newHelper, relocate, nestOn, csOn, nestOff, cont_extMode] at * <;> grind [upd, upd2, TPc.extMode, K.isExt, cont_extMode, cont_ne_enq, BPc.bar, BPc.locked, BPc.past, → locked_bar, → past_bar]))))
 
 set_option hygiene false in
 macro "bp_pre" : tactic => `(tactic| (
